@@ -144,7 +144,8 @@ Definition refused_scenario : scenario :=
   {| sc_outalloc := false;
      sc_scripts := [ [OAlloc 0 16 EMalloc; ORefused 0 RUnderlying; ORefused 0 RGuard; ORefused 1 RUnderlying; OFree 0 EFree];
                      [OAlloc 0 8 ENew] ];
-     sc_sched := [0; 1; 0; 0; 1; 0; 0; 0; 1; 0; 1; 0; 0] |}.
+     sc_sched := [0; 1; 0; 0; 1; 0; 0; 0; 1; 0; 1; 0; 0];
+     sc_more := [] |}.
 
 Lemma refused_valid : valid refused_scenario = true.
 Proof. vm_compute. reflexivity. Qed.
